@@ -97,6 +97,20 @@ def gen_graph_ws(root, rng, unique):
     return ws
 
 
+def directed_graph_ws(root):
+    """everything in one conftest (nothing excusable): a ring and a self-loop whose members request an unknown name before
+    the parameter that continues the cycle, a diamond, and narrower-scoped dependencies"""
+    ws = gen.WS(root)
+    placed = [["ra", "conftest.py", ["unknown_dep", "rb"], "function"], ["rb", "conftest.py", ["leaf", "rc"], "function"],
+              ["rc", "conftest.py", ["unknown_dep", "ra"], "function"], ["selfish", "conftest.py", ["unknown_dep", "selfish"], "function"],
+              ["leaf", "conftest.py", [], "function"], ["top", "conftest.py", ["d1", "d2"], "session"],
+              ["d1", "conftest.py", ["leaf"], "module"], ["d2", "conftest.py", ["leaf"], "session"]]
+    ws.files = {"conftest.py": HDR + "".join(fx(n_, d_, s_) for n_, _, d_, s_ in placed),
+                "test_mod.py": "def test_t(ra, top):\n    pass\n"}
+    ws.spec = {"unique": True, "placed": [tuple(p) for p in placed], "depth": 0, "names": [p[0] for p in placed], "directed": True}
+    return ws
+
+
 def tarjan(nodes, succ):
     index, low, on, st, out, idx = {}, {}, set(), [], [], [0]
 
@@ -255,7 +269,7 @@ def run(ctx):
         concurrent_cycles(ctx, 300 if quick else 30000)
         for i in range(n):
             root = ctx.scratch(f"g{i}")
-            ws = gen_graph_ws(root, ctx.rng, unique=(i % 2 == 0))
+            ws = directed_graph_ws(root) if i == 0 else gen_graph_ws(root, ctx.rng, unique=(i % 2 == 0))
             write_tree(root, ws.files)
             model = ws.model()
             files = sorted(ws.py_files())
